@@ -239,6 +239,33 @@ fn check_b(spec: &CmdSpec, cmd: &clap::Command, prefix: &[&str], path: &[&str], 
         }
     };
     h.nontrivial += 1;
+    // the same request on a definition that was used for a parse of the preceding words before
+    // (by reference, as an application that parses and completes with one definition does)
+    {
+        let reused = catch(|| {
+            let mut c = cmd.clone();
+            let mut line: Vec<OsString> = vec![];
+            if !spec.has(Setting::NoBinaryName) {
+                line.push(OsString::from("prog"));
+            }
+            line.extend(prefix.iter().map(|s| OsString::from(*s)));
+            let _ = c.try_get_matches_from_mut(line.clone());
+            line.push(OsString::from(partial));
+            match complete(&mut c, line, index, None) {
+                Ok(v) => Ok(v.into_iter().map(|c| (os_bytes(c.get_value()), c.is_hide_set())).collect::<Vec<_>>()),
+                Err(e) => Err(e.to_string()),
+            }
+        });
+        match reused {
+            Ok(Ok(r)) => {
+                if r != cands {
+                    bad.push(("a definition used for a parse before offers other candidates than a fresh one".into(), format!("fresh {:?} reused {:?}", cands.iter().map(|c| String::from_utf8_lossy(&c.0).to_string()).collect::<Vec<_>>(), r.iter().map(|c| String::from_utf8_lossy(&c.0).to_string()).collect::<Vec<_>>())));
+                }
+            }
+            Ok(Err(e)) => bad.push(("a definition used for a parse before offers other candidates than a fresh one".into(), format!("reused: {}", e))),
+            Err(p) => bad.push((p.key(), format!("reused definition: {}", p.show()))),
+        }
+    }
     let cand_strs: Vec<String> = cands.iter().map(|c| String::from_utf8_lossy(&c.0).to_string()).collect();
     let all_sub_names: BTreeSet<String> = {
         fn walk(c: &CmdSpec, s: &mut BTreeSet<String>) {
